@@ -914,6 +914,13 @@ SCENARIOS = {
     [["AddReverseColumn", "X", "c"]],
     [["AddRecord", "Y", 5, {}]],
   ],
+  "c11-trigger-formula-side": [
+    [_tbl("B", [("m", "Int")])], [_tbl("A", [("n", "Int")])],
+    [["BulkAddRecord", "B", [None] * 2, {"m": [1, 2]}]],
+    [["AddColumn", "A", "rl", {"type": "RefList:B", "isFormula": False, "formula": "B.lookupRecords()", "recalcWhen": 0}]],
+    [["AddReverseColumn", "A", "rl"]],
+    [["AddRecord", "A", None, {"n": 1}]],
+  ],
   # a clean scripted run through every proved step (update of both sides, duplicate targets, removal on
   # both sides, type switch, rejected uniqueness violation): must produce no finding
   "c11-clean": [
